@@ -245,6 +245,9 @@ type RecBackend struct {
 	FailKind     string
 	FailKindLeft int
 	ord          int
+	// Dwell: time every player-action call spends inside the backend before it is applied (concurrency bursts: widens
+	// the window between the engine's validation and its state update; harmless when the engine serialises the calls)
+	Dwell time.Duration
 }
 
 func NewRecBackend() *RecBackend {
@@ -270,6 +273,12 @@ func (rb *RecBackend) wrap(kind string, arg int64, in *pokerface.GameState, f fu
 	if rb.shouldFail(kind) {
 		rb.rec(kind, arg, in, nil, errInjected, nil)
 		return nil, errInjected
+	}
+	if rb.Dwell > 0 {
+		switch kind {
+		case "pass", "fold", "check", "call", "allin", "bet", "raise":
+			time.Sleep(rb.Dwell)
+		}
 	}
 	out, err := f()
 	rb.rec(kind, arg, in, out, err, nil)
@@ -397,6 +406,10 @@ func NewRig(setting pokertable.TableSetting, be Backend, interval int) (*Rig, er
 	})
 	if _, err := r.te.CreateTable(setting); err != nil {
 		return r, err
+	}
+	if viaMgr != nil {
+		// mgr mode: from here on everything the manager forwards is called through the shared manager
+		r.te = wrapForManager(viaMgr, r.te, setting.TableID)
 	}
 	return r, nil
 }
